@@ -1831,6 +1831,16 @@ class CodeGenerator(NodeVisitor):
             )
             self.outdent()
 
+        # As in visit_Assign: a name that is assigned in the same tuple would
+        # be rebound before its attribute is stored.
+        for name in node.target.find_all(nodes.Name):
+            if name.ctx == "store" and name.name in seen_refs:
+                self.fail(
+                    f"cannot assign to {name.name!r} and to an attribute of it"
+                    " in the same statement",
+                    node.lineno,
+                )
+
         block_frame = frame.inner()
         # This is a special case.  Since a set block always captures we
         # will disable output checks.  This way one can use set blocks
